@@ -107,6 +107,10 @@ def cases_lookup(tier, seed):
     for n in range(1, 6):
         for i in list(range(-1, n + 3)) + [1.5, 2.9]:
             yield dict(kind='choose', n=n, i=i)
+    for n in (2, 3, 4):                                         # an error among the alternatives counts only when it is the selected one
+        for epos in range(n):
+            for i in range(0, n + 2):
+                yield dict(kind='choose', n=n, i=i, epos=epos)
 
 
 def _lit(v):
@@ -159,10 +163,12 @@ def oracle(c):
         exp = ('num', pos[-1] + 1) if pos else ('err', '#N/A')
     elif k == 'choose':
         vals = [10 * (j + 1) for j in range(c['n'])]
+        if 'epos' in c:
+            vals[c['epos']] = '1/0'
         f = f'=CHOOSE({c["i"]!r},{",".join(map(str, vals))})'
         i = int(c['i'])
         if 1 <= c['i'] <= c['n']:
-            exp = ('num', vals[i - 1])
+            exp = ('num', vals[i - 1]) if vals[i - 1] != '1/0' else ('err', '#DIV/0!')
         elif c['i'] < 1 or i > c['n']:
             exp = ('err', '#VALUE!')
         else:
@@ -179,7 +185,7 @@ DRIVERS = [
            rule='COUNTIF over 4 columns (numbers incl. negative and zero, texts in mixed case, mixed columns) x 11 operands (numeric incl. negative, text) x 7 prefixes as criterion text, plus plain numeric values; COUNTIFS over column pairs x 25 criterion pairs; reference = linear scan with the statement\'s semantics',
            bound='columns of 5 cells'),
     Driver('C15/B4.lookups', cases_lookup, oracle, nchunks=4,
-           rule='VLOOKUP over 3 tables (numeric keys, text keys differing in case, duplicate keys) x present/absent keys x every column index 0..5; exact MATCH; approximate MATCH on ascending data for keys below / between / on / beyond the data; CHOOSE for n = 1..5 and every index -1..n+2 and fractional ones',
+           rule='VLOOKUP over 3 tables (numeric keys, text keys differing in case, duplicate keys) x present/absent keys x every column index 0..5; exact MATCH; approximate MATCH on ascending data for keys below / between / on / beyond the data; CHOOSE for n = 1..5 and every index -1..n+2 and fractional ones, and with 1/0 as one of 2-4 alternatives at every position',
            bound='tables of 3-4 rows'),
 ]
 
